@@ -161,7 +161,7 @@ class Interp:
                             return False
                     continue
                 el = self.elem(it)
-                if el is None and it[0] in ('coll', 'map'):
+                if el is None and it[0] in ('coll', 'map', 'items'):
                     continue        # empty collection: body not executed
                 # the body may run any number of times: run it until the environment is stable
                 for _ in range(MAXLEN + 3):
@@ -413,6 +413,25 @@ class Interp:
         # method calls
         if isinstance(fn, ast.Attribute):
             name = fn.attr
+            inner = fn.value
+            if name in ('add', 'append', 'update', 'extend') and e.args and isinstance(inner, ast.Call) and isinstance(inner.func, ast.Attribute) \
+                    and inner.func.attr == 'setdefault' and isinstance(inner.func.value, ast.Name) and len(inner.args) == 2:
+                # W1.setdefault(r1, set()).update(words): the entry of the map (created with the default when absent) grows
+                m = env.get(inner.func.value.id, TOP)
+                if m[0] == 'map':
+                    d = self.ev(inner.args[1], env, f)
+                    v = self.ev(e.args[0], env, f)
+                    if name in ('add', 'append'):
+                        v = coll(v)
+                    if v[0] != 'coll' or d[0] != 'coll':
+                        raise Outside('{} of a map entry with an unrecognised argument: {}'.format(name, u(e)))
+                    env[inner.func.value.id] = ('map', join(join(m[1], d), v))
+                    return NONE
+            if name == 'setdefault' and isinstance(inner, ast.Name) and len(e.args) == 2 and env.get(inner.id, TOP)[0] == 'map':
+                m = env[inner.id]
+                d = self.ev(e.args[1], env, f)
+                env[inner.id] = ('map', join(m[1], d))
+                return join(m[1], d)
             if name in ('add', 'append') and e.args:
                 v = self.ev(e.args[0], env, f)
                 tgt = fn.value
@@ -597,7 +616,7 @@ def check_enumerator(ctx, rep, f, n_max=4):
             if res[0] not in ('coll',):
                 rep.undecided(RULE, f, 'def ' + f.name, 'result is not recognised as a set of words (abstract value {})'.format(res[0]))
                 return
-            if ls is None:
+            if ls is None or res[1] == TOP:
                 rep.undecided(RULE, f, 'def ' + f.name, 'a word of unknown length reaches the result for n = {}'.format(n))
                 return
             want = frozenset(range(0, n + 1))
